@@ -220,6 +220,8 @@ def correspondence(ctx):
                         why = "result %s differs from the stated constraints %s" % (got, want)
                 except Exception as e:  # noqa: BLE001
                     why = "raises %s: %s" % (type(e).__name__, e)
+                    if kind.endswith(("-iterator", "-map", "-tuple")):
+                        why = None      # refusing such an argument is an answer of its own, not a wrong conversion
                 if why:
                     ctx.disagree(stream, "%s %s" % (kind, pairs), why, str(want), True,
                                  {"scheme": scheme, "notation": kind, "pairs": pairs, "clause": why,
